@@ -38,6 +38,10 @@ VARIABLES hist, done,
 GenPriceSigned == {-3, 0, 1, 3, 10}
 GenMarkSigned  == {-3, 0, 1, 2, 5, 9}
 GenPriceNonPos == {-2, 0, 1, 3}
+\* fees: maker rebates (negative), zero and positive fees next to each other
+GenFeeSigned   == {-2, -1, 0, 1, 2}
+GenFeeRebate   == {-1, 1}
+GenFeeWide     == {-2, 0, 1, 2, 3}
 
 gvars == <<pos, exited, net, cash, fees, nfill, fresh, last, hist, done, dl1, dlt, tfill, now, uset>>
 mvars == <<dl1, dlt, tfill, now>>
@@ -150,8 +154,19 @@ GFillM == /\ ~done /\ Len(hist) < MaxLen
 \* After ANY market event: position open and price() defined -> Mark(price(), newer), else the
 \* event is a stutter for the position (MarkNoPrice) - also before the first priced event.
 L1Kinds == {"l1", "l1bid", "l1ask", "l1none"}
-GMkt(kind, m, t) ==
-    LET l1n == IF kind \in L1Kinds /\ dl1.t < t THEN [t |-> t, has |-> kind = "l1", p |-> R(m)] ELSE dl1
+
+\* barter-data/src/books/mod.rs volume_weighted_mid_price(best_bid, best_ask), transcribed exactly:
+\*   (bid.price * ask.amount + ask.price * bid.amount) / (bid.amount + ask.amount)
+\* OrderBookL1::volume_weighed_mid_price yields it for ANY two-sided top of book - normal
+\* (bid < ask), locked (bid = ask) and crossed (bid > ask) alike - and nothing for a one-sided one.
+VWMid(bp, ba, ap, aa) == Div(Add(Mul(R(bp), R(aa)), Mul(R(ap), R(ba))), R(ba + aa))
+
+\* an "l1" event carries bid (bp, ba) and ask (ap, aa); "l1bid" only the bid, "l1ask" only the ask
+GMkt(kind, bp, ba, ap, aa, t) ==
+    LET m   == bp                       \* the price a trade / candle / liquidation carries
+        l1n == IF kind \in L1Kinds /\ dl1.t < t
+               THEN [t |-> t, has |-> kind = "l1", p |-> IF kind = "l1" THEN VWMid(bp, ba, ap, aa) ELSE Zero]
+               ELSE dl1
         ltn == IF kind = "trade" /\ (dlt.t = 0 \/ dlt.t < t) THEN [t |-> t, p |-> R(m)] ELSE dlt
         pr  == DPrice(l1n, ltn)
         newer == t > tfill
@@ -165,7 +180,9 @@ GMkt(kind, m, t) ==
           ELSE /\ MarkNoPrice
                /\ uset' = uset
        /\ hist' = Append(hist,
-             [a |-> "Mkt", kind |-> kind, p |-> R(m), t |-> t, newer |-> newer,
+             [a |-> "Mkt", kind |-> kind, p |-> R(m), bp |-> bp, ba |-> ba, ap |-> ap, aa |-> aa,
+              shape |-> IF kind # "l1" THEN "" ELSE IF bp < ap THEN "normal" ELSE IF bp = ap THEN "locked" ELSE "crossed",
+              t |-> t, newer |-> newer,
               arm |-> IF ~marks THEN "NoMark" ELSE IF newer THEN "Newer" ELSE "Stale",
               fresh |-> fresh,
               exp |-> [pos |-> PosJ(pos', uset'), exit |-> [side |-> "none"], price |-> PriceJ(pr)]])
@@ -174,9 +191,10 @@ KindOf(r) == CASE r <= 3 -> "trade" [] r <= 6 -> "l1" [] r = 7 -> "l1bid" [] r =
                [] r = 9 -> "l1none" [] r = 10 -> "candle" [] OTHER -> "liq"
 
 GMktR == /\ ~done /\ Len(hist) < MaxLen
-         /\ \E k \in {Rnd(1..11, hist)}, m \in {Rnd(MARK, hist)},
+         /\ \E k \in {Rnd(1..11, hist)}, m \in {Rnd(MARK, hist)}, m2 \in {Rnd(MARK, hist)},
+               ba \in {Rnd(1..3, hist)}, aa \in {Rnd(1..3, hist)},
                r \in {Rnd(1..5, hist)}, u \in {Rnd(1..(now + 1), hist)} :
-               GMkt(KindOf(k), m, TimeOf(r, u))
+               GMkt(KindOf(k), m, ba, m2, aa, TimeOf(r, u))
 
 \* (the guard comes first on purpose: TLC splits an action at a top-level \E at start-up and would
 \*  evaluate the draw once for the whole run)
